@@ -1,7 +1,913 @@
-//! C36 — not implemented yet.
-use vmon::report::Args;
+//! C36 — the namespace catalog behaves as a hierarchical map.
+//!
+//! Random operation sequences against the real `lance_namespace_impls::DirectoryNamespace` (directory
+//! listing only / manifest only / dual; local tempdir and `memory://` roots) with names over a hostile
+//! alphabet. Model: `BTreeSet<Vec<String>>` of namespaces + `BTreeMap<(Vec<String>, String), Kind>` of
+//! tables. After every operation the listings of every known namespace are compared with the model
+//! (so an operation on one name that changes another name is seen immediately), `table_exists` is
+//! probed for the touched and for other names, and at the end every listing is paged with random page
+//! sizes following the protocol of the API (`page_token` of the response, null = end).
 
-pub fn run(_args: &Args) -> i32 {
-    eprintln!("HARNESS-ERROR C36 not implemented");
-    2
+use arrow_array::{Int32Array, RecordBatch};
+use arrow_schema::{DataType, Field, Schema};
+use bytes::Bytes;
+use lance_namespace::models::*;
+use lance_namespace::LanceNamespace;
+use lance_namespace_impls::DirectoryNamespaceBuilder;
+use serde_json::{json, Value};
+use std::collections::{BTreeMap, BTreeSet};
+use std::panic::AssertUnwindSafe;
+use std::sync::Arc;
+use std::time::Duration;
+use futures::FutureExt;
+use vmon::prng::{fnv, Rng};
+use vmon::report::{Args, Report};
+
+const RULE: &str = "Sequence = mode (dir / manifest / dual) x root (tempdir / memory) x 8-16 seeded operations (create/drop \
+namespace, create table with IPC data, create empty table, drop, register, deregister, describe, exists, list) over names \
+of length 1-4 from {a,B,1,$,',\",.,/,space,e-acute,%}; the model is checked after every operation. Non-trivial iff >=3 \
+operations succeeded and >=1 name with a special character was accepted or >=1 child namespace existed; distinct by \
+(mode, root kind, operation kinds, name classes).";
+
+const ALPHABET: &[&str] = &["a", "B", "1", "$", "'", "\"", ".", "/", " ", "é", "%"];
+
+#[derive(Clone, Copy, Debug, PartialEq, Eq)]
+enum Mode {
+    Dir,
+    Manifest,
+    Dual,
+}
+
+#[derive(Clone, Copy, Debug, PartialEq, Eq)]
+enum Kind {
+    Data,
+    Empty,
+    Registered,
+}
+
+type NsPath = Vec<String>;
+
+#[derive(Default, Clone)]
+struct Model {
+    namespaces: BTreeSet<NsPath>,
+    tables: BTreeMap<(NsPath, String), Kind>,
+}
+
+impl Model {
+    fn ns_exists(&self, p: &NsPath) -> bool {
+        p.is_empty() || self.namespaces.contains(p)
+    }
+    fn tables_in(&self, p: &NsPath) -> Vec<String> {
+        self.tables.keys().filter(|(n, _)| n == p).map(|(_, t)| t.clone()).collect()
+    }
+    fn children_of(&self, p: &NsPath) -> Vec<String> {
+        self.namespaces
+            .iter()
+            .filter(|n| n.len() == p.len() + 1 && n[..p.len()] == p[..])
+            .map(|n| n.last().unwrap().clone())
+            .collect()
+    }
+    /// same object id used by a namespace and a table (the catalog keys both by the joined path)
+    fn object_taken(&self, p: &NsPath, name: &str) -> bool {
+        let mut full = p.clone();
+        full.push(name.to_string());
+        self.namespaces.contains(&full) || self.tables.contains_key(&(p.clone(), name.to_string()))
+    }
+}
+
+fn name_class(n: &str) -> &'static str {
+    if n.contains('$') {
+        "dollar"
+    } else if n.contains('\'') {
+        "single-quote"
+    } else if n.contains('"') {
+        "double-quote"
+    } else if n.contains('/') {
+        "slash"
+    } else if n.contains('%') {
+        "percent"
+    } else if n.contains('.') {
+        "dot"
+    } else if n.contains(' ') {
+        "space"
+    } else if !n.is_ascii() {
+        "non-ascii"
+    } else {
+        "plain"
+    }
+}
+
+fn gen_name(rng: &mut Rng) -> String {
+    if rng.chance(1, 3) {
+        // plain
+        let n = rng.urange(1, 3);
+        (0..n).map(|_| *rng.pick(&["a", "B", "1"])).collect()
+    } else {
+        let n = rng.urange(1, 4);
+        (0..n).map(|_| *rng.pick(ALPHABET)).collect()
+    }
+}
+
+fn ipc_data() -> Bytes {
+    let schema = Arc::new(Schema::new(vec![Field::new("x", DataType::Int32, true)]));
+    let batch = RecordBatch::try_new(schema.clone(), vec![Arc::new(Int32Array::from(vec![1, 2]))]).unwrap();
+    let mut buf = vec![];
+    {
+        let mut w = arrow::ipc::writer::StreamWriter::try_new(&mut buf, &schema).unwrap();
+        w.write(&batch).unwrap();
+        w.finish().unwrap();
+    }
+    Bytes::from(buf)
+}
+
+#[derive(Clone, Debug)]
+enum Op {
+    CreateNs(NsPath),
+    DropNs(NsPath),
+    CreateTable(NsPath, String),
+    CreateEmpty(NsPath, String),
+    DropTable(NsPath, String),
+    Register(NsPath, String, String),
+    Deregister(NsPath, String),
+    Describe(NsPath, String),
+    Exists(NsPath, String),
+}
+
+impl Op {
+    fn kind(&self) -> &'static str {
+        match self {
+            Op::CreateNs(_) => "create_namespace",
+            Op::DropNs(_) => "drop_namespace",
+            Op::CreateTable(..) => "create_table",
+            Op::CreateEmpty(..) => "create_empty_table",
+            Op::DropTable(..) => "drop_table",
+            Op::Register(..) => "register_table",
+            Op::Deregister(..) => "deregister_table",
+            Op::Describe(..) => "describe_table",
+            Op::Exists(..) => "table_exists",
+        }
+    }
+    fn names(&self) -> Vec<String> {
+        match self {
+            Op::CreateNs(p) | Op::DropNs(p) => p.clone(),
+            Op::CreateTable(p, n) | Op::CreateEmpty(p, n) | Op::DropTable(p, n) | Op::Deregister(p, n) | Op::Describe(p, n) | Op::Exists(p, n) => {
+                let mut v = p.clone();
+                v.push(n.clone());
+                v
+            }
+            Op::Register(p, n, _) => {
+                let mut v = p.clone();
+                v.push(n.clone());
+                v
+            }
+        }
+    }
+}
+
+fn tid(p: &NsPath, n: &str) -> Option<Vec<String>> {
+    let mut v = p.clone();
+    v.push(n.to_string());
+    Some(v)
+}
+
+fn is_internal_error(e: &str) -> bool {
+    let l = e.to_lowercase();
+    l.contains("failed to filter")
+        || l.contains("tokeniz")
+        || l.contains("sql")
+        || l.contains("internal error")
+        || l.contains("panicked")
+        || l.contains("failed to project")
+        || l.contains("parser")
+}
+
+/// coarse class of the names involved: `dollar` (the id delimiter), `quote` (spliced into SQL
+/// filters), `path-char` (characters the object-store path encoding changes), `plain`
+fn worst_class(names: &[String]) -> &'static str {
+    let has = |c: &str| names.iter().any(|n| name_class(n) == c);
+    if has("dollar") {
+        "dollar"
+    } else if has("single-quote") || has("double-quote") {
+        "quote"
+    } else if has("slash") || has("percent") || has("dot") || has("space") || has("non-ascii") {
+        "path-char"
+    } else {
+        "plain"
+    }
+}
+
+struct Seq<'a> {
+    report: &'a Report,
+    seed: u64,
+    idx: u64,
+    mode: Mode,
+    root_kind: &'static str,
+    log: Vec<String>,
+    model: Model,
+    special_accepted: usize,
+    ok_ops: usize,
+    /// set by the first violation: model and catalog have diverged, later findings would be echoes
+    diverged: std::cell::Cell<bool>,
+}
+
+impl Seq<'_> {
+    fn witness(&self, extra: Value) -> Value {
+        json!({"seed": self.seed as i64, "sequence": self.idx, "mode": format!("{:?}", self.mode), "root": self.root_kind,
+            "operations": self.log, "model_namespaces": self.model.namespaces,
+            "model_tables": self.model.tables.iter().map(|((p, n), k)| format!("{p:?}/{n:?} ({k:?})")).collect::<Vec<_>>(),
+            "detail": extra})
+    }
+    fn violation(&self, symptom: &str, class: &str, what: &str, extra: Value) {
+        // the mode is part of the class only for plain names (special-character classes behave alike
+        // wherever the manifest is involved)
+        let class = match class {
+            "dollar" | "quote" | "path-char" | "plain" => class.to_string(),
+            "single-quote" | "double-quote" => "quote".to_string(),
+            "any" => "any".to_string(),
+            _ => "path-char".to_string(),
+        };
+        // one signature per (root cause, symptom kind): the root cause is the name class (`$` is the id
+        // delimiter, quotes are spliced into SQL, path characters are re-encoded by the object-store
+        // path), the shared id space of namespaces and tables, or paging
+        let kind = if symptom.contains("id-of-a") {
+            "namespace-and-table-share-one-id-space"
+        } else if symptom.starts_with("paging") || symptom.starts_with("page-") {
+            symptom
+        } else if symptom.contains("internal-error") || symptom == "panic" {
+            "internal-error"
+        } else if symptom.contains("listed") || symptom.contains("listing") {
+            "listing-differs-from-map"
+        } else if symptom.contains("exists") || symptom.contains("found-a-table") {
+            "table-exists-differs-from-map"
+        } else if symptom.contains("succeeded") || symptom.contains("dropped-a-table") {
+            "operation-accepted-that-the-map-rejects"
+        } else {
+            symptom
+        };
+        let sig = if kind == "namespace-and-table-share-one-id-space" {
+            kind.to_string()
+        } else if class == "plain" || class == "any" {
+            format!("{kind}-{}-{class}", format!("{:?}", self.mode).to_lowercase())
+        } else {
+            format!("{kind}-{class}")
+        };
+        let what = format!("[{symptom}] {what}");
+        let what = what.as_str();
+        self.report.violation(&sig, what, self.witness(extra));
+        self.diverged.set(true);
+    }
+}
+
+async fn guarded<T>(fut: impl std::future::Future<Output = lance_core::Result<T>>) -> Result<T, String> {
+    match tokio::time::timeout(Duration::from_secs(180), AssertUnwindSafe(fut).catch_unwind()).await {
+        Err(_) => Err("TIMEOUT".into()),
+        Ok(Err(p)) => {
+            let m = p
+                .downcast_ref::<String>()
+                .cloned()
+                .or_else(|| p.downcast_ref::<&str>().map(|s| s.to_string()))
+                .unwrap_or_default();
+            Err(format!("PANIC: {m}"))
+        }
+        Ok(Ok(Err(e))) => Err(e.to_string()),
+        Ok(Ok(Ok(x))) => Ok(x),
+    }
+}
+
+/// compare every listing with the model
+async fn check_state(s: &Seq<'_>, ns: &dyn LanceNamespace, last: &Op) {
+    let mut spaces: Vec<NsPath> = vec![vec![]];
+    if s.mode != Mode::Dir {
+        spaces.extend(s.model.namespaces.iter().cloned());
+    }
+    for p in spaces.iter().take(6) {
+        let got = guarded(ns.list_tables(ListTablesRequest {
+            id: Some(p.clone()),
+            page_token: None,
+            limit: None,
+        }))
+        .await;
+        s.report.count("listings_compared", 1);
+        match got {
+            Err(e) => {
+                let class = worst_class(&[p.clone(), last.names()].concat());
+                s.violation(
+                    if is_internal_error(&e) || e.starts_with("PANIC") { "list-tables-internal-error" } else { "list-tables-failed-for-existing-namespace" },
+                    class,
+                    &format!("list_tables({p:?}) failed: {e}"),
+                    json!({"namespace": p, "error": e}),
+                );
+            }
+            Ok(r) => {
+                let mut got: Vec<String> = r.tables;
+                got.sort();
+                let mut exp = s.model.tables_in(p);
+                exp.sort();
+                if got != exp {
+                    let missing: Vec<String> = exp.iter().filter(|x| !got.contains(x)).cloned().collect();
+                    let extra: Vec<String> = got.iter().filter(|x| !exp.contains(x)).cloned().collect();
+                    let dup = got.windows(2).any(|w| w[0] == w[1]);
+                    // which model names explain it?
+                    let mut involved: Vec<String> = missing.clone();
+                    involved.extend(extra.clone());
+                    involved.extend(last.names());
+                    // an extra entry that is the tail of a `$` name stored elsewhere
+                    let misplaced = extra.iter().any(|e| {
+                        s.model.tables.keys().any(|(_, n)| n.contains('$') && n.ends_with(&format!("${e}")))
+                    });
+                    let symptom = if misplaced {
+                        "table-listed-under-wrong-namespace"
+                    } else if dup && missing.is_empty() && extra.is_empty() {
+                        "table-listed-twice"
+                    } else if !missing.is_empty() && extra.is_empty() {
+                        "table-missing-from-listing"
+                    } else if missing.is_empty() {
+                        "unknown-table-in-listing"
+                    } else {
+                        "table-listed-under-different-name"
+                    };
+                    let class = if misplaced { "dollar" } else { worst_class(&involved) };
+                    s.violation(
+                        symptom,
+                        class,
+                        &format!("list_tables({p:?}) = {got:?}, model has {exp:?} (after {})", last.kind()),
+                        json!({"namespace": p, "listed": got, "expected": exp}),
+                    );
+                }
+            }
+        }
+        if s.mode != Mode::Dir {
+            let got = guarded(ns.list_namespaces(ListNamespacesRequest {
+                id: Some(p.clone()),
+                page_token: None,
+                limit: None,
+            }))
+            .await;
+            match got {
+                Err(e) => {
+                    let class = worst_class(&[p.clone(), last.names()].concat());
+                    s.violation(
+                        if is_internal_error(&e) || e.starts_with("PANIC") { "list-namespaces-internal-error" } else { "list-namespaces-failed-for-existing-namespace" },
+                        class,
+                        &format!("list_namespaces({p:?}) failed: {e}"),
+                        json!({"namespace": p, "error": e}),
+                    );
+                }
+                Ok(r) => {
+                    let mut got = r.namespaces;
+                    got.sort();
+                    let mut exp = s.model.children_of(p);
+                    exp.sort();
+                    if got != exp {
+                        let mut involved: Vec<String> = got.iter().filter(|x| !exp.contains(x)).cloned().collect();
+                        involved.extend(exp.iter().filter(|x| !got.contains(x)).cloned());
+                        involved.extend(last.names());
+                        s.violation(
+                            "namespace-listing-differs",
+                            worst_class(&involved),
+                            &format!("list_namespaces({p:?}) = {got:?}, model has {exp:?} (after {})", last.kind()),
+                            json!({"namespace": p, "listed": got, "expected": exp}),
+                        );
+                    }
+                }
+            }
+        }
+    }
+}
+
+async fn probe_exists(s: &Seq<'_>, ns: &dyn LanceNamespace, p: &NsPath, n: &str) {
+    let expected = s.model.tables.contains_key(&(p.clone(), n.to_string()));
+    if s.mode == Mode::Dir && !p.is_empty() {
+        return;
+    }
+    let got = guarded(ns.table_exists(TableExistsRequest {
+        id: tid(p, n),
+        version: None,
+    }))
+    .await;
+    s.report.count("exists_probes", 1);
+    match (&got, expected) {
+        (Ok(()), true) | (Err(_), false) => {
+            if let Err(e) = &got {
+                if e.starts_with("PANIC") || (is_internal_error(e) && name_class(n) == "plain") {
+                    s.violation("table-exists-internal-error", name_class(n), &format!("table_exists({p:?},{n:?}) failed with {e}"), json!({"error": e}));
+                }
+            }
+        }
+        (Ok(()), false) => s.violation(
+            if s.model.namespaces.contains(&[p.clone(), vec![n.to_string()]].concat()) {
+                "table-found-under-the-id-of-a-namespace"
+            } else {
+                "table-exists-says-yes-for-missing-table"
+            },
+            worst_class(&[p.clone(), vec![n.to_string()]].concat()),
+            &format!("table_exists({p:?},{n:?}) = Ok but the model has no such table"),
+            json!({}),
+        ),
+        (Err(e), true) => s.violation(
+            "table-exists-misses-existing-table",
+            worst_class(&[p.clone(), vec![n.to_string()]].concat()),
+            &format!("table_exists({p:?},{n:?}) failed ({e}) but the table was created"),
+            json!({"error": e}),
+        ),
+    }
+}
+
+async fn run_sequence(report: &Report, seed: u64, idx: u64, selftest: bool) {
+    let mut rng = Rng::for_case(seed, idx);
+    let mode = *rng.pick(&[Mode::Dir, Mode::Manifest, Mode::Manifest, Mode::Dual, Mode::Dual]);
+    // directory-only mode on a memory:// root is not generated: create_table opens the table URI on its
+    // own and every `memory://` store is private to the object that opened it (see NOTES.md)
+    let use_memory = mode != Mode::Dir && rng.chance(1, 2);
+    let tmp = if use_memory {
+        None
+    } else {
+        match tempfile::Builder::new().prefix("e_io-c36-").tempdir_in("/tmp") {
+            Ok(d) => Some(d),
+            Err(e) => {
+                report.harness_error(&format!("tempdir: {e}"));
+                return;
+            }
+        }
+    };
+    let root = match &tmp {
+        Some(d) => d.path().to_string_lossy().to_string(),
+        None => format!("memory://e_io_c36_{}_{}_{}", std::process::id(), seed, idx),
+    };
+    let builder = DirectoryNamespaceBuilder::new(root.clone())
+        .manifest_enabled(mode != Mode::Dir)
+        .dir_listing_enabled(mode != Mode::Manifest)
+        .inline_optimization_enabled(rng.bool());
+    let ns = match guarded(builder.build()).await {
+        Ok(n) => n,
+        Err(e) => {
+            report.harness_error(&format!("cannot build namespace ({mode:?}, {root}): {e}"));
+            return;
+        }
+    };
+    let mut s = Seq {
+        report,
+        seed,
+        idx,
+        mode,
+        root_kind: if use_memory { "memory" } else { "tempdir" },
+        log: vec![],
+        model: Model::default(),
+        special_accepted: 0,
+        ok_ops: 0,
+        diverged: std::cell::Cell::new(false),
+    };
+    let data = ipc_data();
+    let n_ops = rng.urange(8, 16);
+    // a small pool of names so that operations collide
+    let pool: Vec<String> = (0..rng.urange(3, 6)).map(|_| gen_name(&mut rng)).collect();
+    let mut dropped: Vec<(NsPath, String)> = vec![];
+    let mut reg_counter = 0;
+    for _ in 0..n_ops {
+        if !report.time_left() {
+            break;
+        }
+        // choose a namespace path: root or an existing / fresh child
+        let existing: Vec<NsPath> = s.model.namespaces.iter().cloned().collect();
+        let pick_ns = |rng: &mut Rng| -> NsPath {
+            if mode == Mode::Dir || existing.is_empty() || rng.chance(1, 2) {
+                vec![]
+            } else {
+                existing[rng.usize_below(existing.len())].clone()
+            }
+        };
+        let name = pool[rng.usize_below(pool.len())].clone();
+        let op = match rng.below(if mode == Mode::Dir { 7 } else { 12 }) {
+            0 | 1 => Op::CreateTable(pick_ns(&mut rng), name),
+            2 => Op::CreateEmpty(pick_ns(&mut rng), name),
+            3 => {
+                let keys: Vec<_> = s.model.tables.iter().filter(|(_, k)| **k != Kind::Registered).map(|(k, _)| k.clone()).collect();
+                if !keys.is_empty() && rng.chance(3, 4) {
+                    let (p, n) = keys[rng.usize_below(keys.len())].clone();
+                    Op::DropTable(p, n)
+                } else {
+                    Op::DropTable(pick_ns(&mut rng), name)
+                }
+            }
+            4 => Op::Exists(pick_ns(&mut rng), name),
+            5 => {
+                let keys: Vec<_> = s.model.tables.iter().filter(|(_, k)| **k == Kind::Data).map(|(k, _)| k.clone()).collect();
+                if !keys.is_empty() {
+                    let (p, n) = keys[rng.usize_below(keys.len())].clone();
+                    Op::Describe(p, n)
+                } else {
+                    Op::Describe(pick_ns(&mut rng), name)
+                }
+            }
+            6 => Op::CreateTable(pick_ns(&mut rng), gen_name(&mut rng)),
+            7 | 8 => {
+                let mut p = pick_ns(&mut rng);
+                if p.len() >= 2 {
+                    p.truncate(1);
+                }
+                p.push(name);
+                Op::CreateNs(p)
+            }
+            9 => {
+                if !existing.is_empty() {
+                    Op::DropNs(existing[rng.usize_below(existing.len())].clone())
+                } else {
+                    Op::DropNs(vec![name])
+                }
+            }
+            10 => {
+                reg_counter += 1;
+                Op::Register(pick_ns(&mut rng), name, format!("ext{reg_counter}.lance"))
+            }
+            _ => {
+                let keys: Vec<_> = s.model.tables.keys().cloned().collect();
+                if !keys.is_empty() && rng.chance(3, 4) {
+                    let (p, n) = keys[rng.usize_below(keys.len())].clone();
+                    Op::Deregister(p, n)
+                } else {
+                    Op::Deregister(pick_ns(&mut rng), name)
+                }
+            }
+        };
+        let op = match op {
+            Op::DropTable(p, n) if s.model.tables.get(&(p.clone(), n.clone())) == Some(&Kind::Registered) => Op::Deregister(p, n),
+            Op::Deregister(p, n)
+                if mode == Mode::Dual && matches!(s.model.tables.get(&(p.clone(), n.clone())), Some(Kind::Data) | Some(Kind::Empty)) =>
+            {
+                // dual mode keeps finding the directory of a deregistered table: not a map operation
+                Op::Exists(p, n)
+            }
+            other => other,
+        };
+        // ---- model expectation
+        #[derive(PartialEq, Debug)]
+        enum Expect {
+            Ok,
+            Err,
+            /// the model allows both (name collision between a namespace and a table; non-plain names
+            /// may be rejected)
+            Either,
+        }
+        let m = &s.model;
+        let names = op.names();
+        let plain = names.iter().all(|n| name_class(n) == "plain");
+        let expect = match &op {
+            Op::CreateNs(p) => {
+                if mode == Mode::Dir {
+                    Expect::Err
+                } else {
+                    let parent = p[..p.len() - 1].to_vec();
+                    if !m.ns_exists(&parent) || m.namespaces.contains(p) {
+                        Expect::Err
+                    } else if m.tables.contains_key(&(parent, p.last().unwrap().clone())) {
+                        Expect::Either
+                    } else {
+                        Expect::Ok
+                    }
+                }
+            }
+            Op::DropNs(p) => {
+                if mode == Mode::Dir || !m.namespaces.contains(p) || !m.children_of(p).is_empty() || !m.tables_in(p).is_empty() {
+                    Expect::Err
+                } else {
+                    Expect::Ok
+                }
+            }
+            Op::CreateTable(p, n) | Op::CreateEmpty(p, n) | Op::Register(p, n, _) => {
+                if mode == Mode::Dir && (matches!(op, Op::Register(..)) || !p.is_empty()) {
+                    Expect::Err
+                } else if !m.ns_exists(p) || m.tables.contains_key(&(p.clone(), n.clone())) {
+                    // directory mode overwrites silently? the map model says a duplicate create fails
+                    Expect::Err
+                } else if m.object_taken(p, n) {
+                    Expect::Either
+                } else {
+                    Expect::Ok
+                }
+            }
+            Op::DropTable(p, n) | Op::Deregister(p, n) | Op::Describe(p, n) | Op::Exists(p, n) => {
+                if mode == Mode::Dir && matches!(op, Op::Deregister(..)) {
+                    Expect::Err
+                } else if m.tables.contains_key(&(p.clone(), n.clone())) {
+                    Expect::Ok
+                } else {
+                    Expect::Err
+                }
+            }
+        };
+        // ---- execute
+        let res: Result<(), String> = match &op {
+            Op::CreateNs(p) => guarded(ns.create_namespace(CreateNamespaceRequest {
+                id: Some(p.clone()),
+                mode: None,
+                properties: None,
+            }))
+            .await
+            .map(|_| ()),
+            Op::DropNs(p) => guarded(ns.drop_namespace(DropNamespaceRequest {
+                id: Some(p.clone()),
+                mode: None,
+                behavior: None,
+            }))
+            .await
+            .map(|_| ()),
+            Op::CreateTable(p, n) => guarded(ns.create_table(
+                CreateTableRequest {
+                    id: tid(p, n),
+                    location: None,
+                    mode: None,
+                    properties: None,
+                },
+                data.clone(),
+            ))
+            .await
+            .map(|_| ()),
+            Op::CreateEmpty(p, n) => guarded(ns.create_empty_table(CreateEmptyTableRequest {
+                id: tid(p, n),
+                location: None,
+                properties: None,
+            }))
+            .await
+            .map(|_| ()),
+            Op::DropTable(p, n) => guarded(ns.drop_table(DropTableRequest { id: tid(p, n) })).await.map(|_| ()),
+            Op::Register(p, n, loc) => guarded(ns.register_table(RegisterTableRequest {
+                id: tid(p, n),
+                location: loc.clone(),
+                mode: None,
+                properties: None,
+            }))
+            .await
+            .map(|_| ()),
+            Op::Deregister(p, n) => guarded(ns.deregister_table(DeregisterTableRequest { id: tid(p, n) })).await.map(|_| ()),
+            Op::Describe(p, n) => guarded(ns.describe_table(DescribeTableRequest {
+                id: tid(p, n),
+                version: None,
+            }))
+            .await
+            .map(|_| ()),
+            Op::Exists(p, n) => guarded(ns.table_exists(TableExistsRequest {
+                id: tid(p, n),
+                version: None,
+            }))
+            .await,
+        };
+        s.log.push(format!(
+            "{}({:?}) -> {}",
+            op.kind(),
+            names,
+            match &res {
+                Ok(()) => "ok".to_string(),
+                Err(e) => format!("err: {}", e.chars().take(140).collect::<String>()),
+            }
+        ));
+        report.count(&format!("op.{}.{}", op.kind(), if res.is_ok() { "ok" } else { "err" }), 1);
+        for n in &names {
+            report.count(&format!("name_class.{}", name_class(n)), 1);
+        }
+        if let Err(e) = &res {
+            if e == "TIMEOUT" {
+                report.inconclusive(&format!("C36 sequence {idx}: {} did not return in 180 s", op.kind()));
+                return;
+            }
+        }
+        let class = worst_class(&names);
+        // ---- judge the reply and update the model
+        match (&res, &expect) {
+            (Ok(()), Expect::Err) => {
+                let (symptom, apply) = match &op {
+                    Op::CreateTable(..) | Op::CreateEmpty(..) | Op::Register(..) if m.tables.contains_key(&(names[..names.len() - 1].to_vec(), names.last().unwrap().clone())) => ("duplicate-create-succeeded", false),
+                    Op::Exists(..) | Op::Describe(..) if m.namespaces.contains(&names) => ("table-found-under-the-id-of-a-namespace", false),
+                    Op::Exists(..) | Op::Describe(..) => ("found-a-table-that-was-never-created", false),
+                    Op::DropTable(..) | Op::Deregister(..) => ("dropped-a-table-that-does-not-exist", false),
+                    Op::DropNs(p) if p.len() >= 1 && m.tables.contains_key(&(p[..p.len() - 1].to_vec(), p.last().unwrap().clone())) => {
+                        ("drop-namespace-accepted-the-id-of-a-table", false)
+                    }
+                    _ => ("operation-succeeded-but-the-map-model-rejects-it", false),
+                };
+                let _ = apply;
+                s.violation(symptom, class, &format!("{}({names:?}) returned Ok, expected an error", op.kind()), json!({"op": format!("{op:?}")}));
+            }
+            (Err(e), Expect::Ok) => {
+                if e.starts_with("PANIC") {
+                    s.violation("panic", class, &format!("{}({names:?}) panicked: {e}", op.kind()), json!({"op": format!("{op:?}"), "error": e}));
+                } else if is_internal_error(e) {
+                    s.violation(
+                        &format!("internal-error-on-{}", op.kind().replace('_', "-")),
+                        class,
+                        &format!("{}({names:?}) failed with an internal error instead of a clean rejection: {e}", op.kind()),
+                        json!({"op": format!("{op:?}"), "error": e}),
+                    );
+                } else if plain {
+                    s.violation(
+                        &format!("unexpected-rejection-of-{}", op.kind().replace('_', "-")),
+                        class,
+                        &format!("{}({names:?}) was rejected although the map model accepts it: {e}", op.kind()),
+                        json!({"op": format!("{op:?}"), "error": e}),
+                    );
+                } else {
+                    // a name the catalog refuses to store: allowed, must be without effect (checked below)
+                    report.rejected();
+                    report.count(&format!("rejected_names.{class}"), 1);
+                }
+            }
+            _ => {}
+        }
+        if res.is_ok() && expect == Expect::Either {
+            report.count("sequences_stopped_after_namespace_table_id_collision", 1);
+            report.case(None);
+            return;
+        }
+        if res.is_ok() {
+            s.ok_ops += 1;
+            if !plain && !matches!(op, Op::Exists(..) | Op::Describe(..)) {
+                s.special_accepted += 1;
+            }
+            match &op {
+                Op::CreateNs(p) => {
+                    s.model.namespaces.insert(p.clone());
+                }
+                Op::DropNs(p) => {
+                    s.model.namespaces.remove(p);
+                }
+                Op::CreateTable(p, n) => {
+                    s.model.tables.insert((p.clone(), n.clone()), Kind::Data);
+                }
+                Op::CreateEmpty(p, n) => {
+                    s.model.tables.insert((p.clone(), n.clone()), Kind::Empty);
+                }
+                Op::Register(p, n, _) => {
+                    s.model.tables.insert((p.clone(), n.clone()), Kind::Registered);
+                }
+                Op::DropTable(p, n) | Op::Deregister(p, n) => {
+                    s.model.tables.remove(&(p.clone(), n.clone()));
+                    dropped.push((p.clone(), n.clone()));
+                }
+                _ => {}
+            }
+        }
+        if selftest && s.ok_ops == 3 {
+            // corrupt the model: pretend a table exists that was never created
+            s.model.tables.insert((vec![], "zzselftest".into()), Kind::Data);
+        }
+        if s.diverged.get() {
+            break;
+        }
+        // ---- the whole catalog against the model
+        check_state(&s, &ns, &op).await;
+        if s.diverged.get() {
+            break;
+        }
+        if let Some(last) = names.last() {
+            let p = names[..names.len() - 1].to_vec();
+            if !matches!(op, Op::CreateNs(_) | Op::DropNs(_)) {
+                probe_exists(&s, &ns, &p, last).await;
+            }
+        }
+        // another name must not be affected
+        let keys: Vec<_> = s.model.tables.keys().cloned().collect();
+        if !keys.is_empty() {
+            let (p, n) = keys[rng.usize_below(keys.len())].clone();
+            probe_exists(&s, &ns, &p, &n).await;
+        }
+        if let Some((p, n)) = dropped.last().cloned() {
+            if !s.model.tables.contains_key(&(p.clone(), n.clone())) {
+                probe_exists(&s, &ns, &p, &n).await;
+            }
+        }
+        if s.diverged.get() {
+            break;
+        }
+    }
+    if s.diverged.get() {
+        report.case(None);
+        report.count("sequences_stopped_at_first_violation", 1);
+        return;
+    }
+    // ---- paging
+    let mut spaces: Vec<NsPath> = vec![vec![]];
+    if mode != Mode::Dir {
+        spaces.extend(s.model.namespaces.iter().cloned());
+    }
+    for p in spaces.iter().take(4) {
+        let exp = {
+            let mut e = s.model.tables_in(p);
+            e.sort();
+            e
+        };
+        if exp.len() < 2 {
+            continue;
+        }
+        let limit = rng.urange(1, exp.len() - 1) as i32;
+        let mut token: Option<String> = None;
+        let mut seen: Vec<String> = vec![];
+        let mut pages = 0;
+        let mut over_limit = false;
+        loop {
+            pages += 1;
+            let r = guarded(ns.list_tables(ListTablesRequest {
+                id: Some(p.clone()),
+                page_token: token.clone(),
+                limit: Some(limit),
+            }))
+            .await;
+            let Ok(r) = r else { break };
+            if r.tables.len() > limit as usize {
+                over_limit = true;
+            }
+            seen.extend(r.tables);
+            token = r.page_token.filter(|t| !t.is_empty());
+            if token.is_none() || pages > exp.len() + 3 {
+                break;
+            }
+        }
+        report.count("paged_listings", 1);
+        report.count("pages_fetched", pages as u64);
+        let mut sorted = seen.clone();
+        sorted.sort();
+        let dup = sorted.windows(2).any(|w| w[0] == w[1]);
+        sorted.dedup();
+        let missing: Vec<&String> = exp.iter().filter(|x| !sorted.contains(x)).collect();
+        // only judge paging where the unpaged listing was right
+        let full_ok = guarded(ns.list_tables(ListTablesRequest { id: Some(p.clone()), page_token: None, limit: None }))
+            .await
+            .map(|r| {
+                let mut t = r.tables;
+                t.sort();
+                t == exp
+            })
+            .unwrap_or(false);
+        if !full_ok {
+            continue;
+        }
+        if dup {
+            s.violation("paging-returns-an-entry-twice", "any", &format!("paging list_tables({p:?}) with limit {limit}: {seen:?}"), json!({"limit": limit, "pages": pages}));
+        } else if !missing.is_empty() {
+            s.violation(
+                "paging-ends-without-token-before-all-entries",
+                "any",
+                &format!("paging list_tables({p:?}) with limit {limit} delivered {seen:?} in {pages} page(s) and no continuation token; {missing:?} never delivered"),
+                json!({"limit": limit, "pages": pages, "expected": exp}),
+            );
+        } else if over_limit {
+            s.violation(
+                "page-larger-than-limit",
+                "any",
+                &format!("list_tables({p:?}, limit {limit}) returned {} entries in one page", seen.len()),
+                json!({"limit": limit, "pages": pages, "expected": exp}),
+            );
+        }
+    }
+    let has_child = !s.model.namespaces.is_empty();
+    let nontrivial = s.ok_ops >= 3 && (s.special_accepted >= 1 || has_child);
+    let kinds: BTreeSet<String> = s.log.iter().map(|l| l.split('(').next().unwrap_or("").to_string()).collect();
+    let classes: BTreeSet<&'static str> = pool.iter().map(|n| name_class(n)).collect();
+    let sig = fnv(format!("{mode:?}|{}|{kinds:?}|{classes:?}|{}", s.root_kind, s.model.namespaces.len().min(3)).as_bytes());
+    report.case(if nontrivial { Some(sig) } else { None });
+    report.count(&format!("sequences.{mode:?}.{}", s.root_kind), 1);
+    report.count("operations", s.log.len() as u64);
+    if report.want_sample() && nontrivial && idx % 5 == 0 {
+        report.sample(json!({"sequence": idx, "mode": format!("{mode:?}"), "root": s.root_kind, "operations": s.log}));
+    }
+    drop(ns);
+    drop(tmp);
+}
+
+pub fn run(args: &Args) -> i32 {
+    let selftest = args.extra.contains_key("selftest");
+    let report = Report::new(args, "exploration", RULE, (55, 900)).with_min_nontrivial(10);
+    report.assume("a create that fails cleanly for a name with special characters is a rejected input; its absence of effect is checked by the listing comparison");
+    report.assume("paging follows the API contract: the response's page_token is the next request's token, null/empty ends the listing");
+    std::panic::set_hook(Box::new(|_| {}));
+    let only: Option<u64> = args.extra.get("only-case").and_then(|s| s.parse().ok());
+    let threads = if only.is_some() { 1 } else { crate::sink::verif_threads().min(12) };
+    let max: u64 = args.tier.pick(20_000, 2_000_000);
+    let next = std::sync::atomic::AtomicU64::new(0);
+    std::thread::scope(|sc| {
+        for _ in 0..threads {
+            sc.spawn(|| {
+                let rt = tokio::runtime::Builder::new_multi_thread().worker_threads(2).enable_all().build().expect("rt");
+                loop {
+                    let idx = match only {
+                        Some(c) => {
+                            if next.fetch_add(1, std::sync::atomic::Ordering::SeqCst) > 0 {
+                                break;
+                            }
+                            c
+                        }
+                        None => next.fetch_add(1, std::sync::atomic::Ordering::SeqCst),
+                    };
+                    if idx >= max || !report.time_left() {
+                        break;
+                    }
+                    rt.block_on(run_sequence(&report, args.seed, idx, selftest));
+                }
+            });
+        }
+    });
+    if selftest {
+        let n = report.n_violations();
+        println!("SELFTEST C36 violations raised on a corrupted model: {n}");
+        return if n > 0 { 0 } else { 2 };
+    }
+    report.finish()
 }
